@@ -9,4 +9,5 @@ CONSTANTS
     CreateUnderLock = FALSE
     MayFail = FALSE
     MayForget = FALSE
+    MayPanic = FALSE
 INVARIANTS ReuseOK
